@@ -19,6 +19,7 @@ type queryBuilder struct {
 	lits    map[string]*Term // literal sequence terms by string
 	litAr   map[string]map[int]bool
 	seqEqs  [][2]*Term
+	byteLits map[int64]bool // integer literals 1..255 of the query (ground bit facts are stated for them when bit operations occur)
 }
 
 func (q *queryBuilder) noteSort(s *Sort) {
@@ -39,6 +40,12 @@ func (q *queryBuilder) noteSort(s *Sort) {
 func (q *queryBuilder) scan(t *Term) {
 	q.noteSort(t.Sort)
 	if t.IsLit() {
+		if t.Int != nil && t.Int.Sign() > 0 && t.Int.IsInt64() && t.Int.Int64() < 256 {
+			if q.byteLits == nil {
+				q.byteLits = map[int64]bool{}
+			}
+			q.byteLits[t.Int.Int64()] = true
+		}
 		return
 	}
 	if t.Op == "" && len(t.Args) == 0 {
@@ -355,6 +362,18 @@ func (e *Engine) BuildQuery(facts []*Term, goal *Term, solver string, lenBound b
 	}
 	if needBits {
 		sb.WriteString(bitPrelude())
+		// ground bit values of the byte literals of the query (masks): (x div 2^k) mod 2 with a symbolic
+		// pow2 term is beyond the solvers' linear arithmetic
+		var bl []int64
+		for v := range q.byteLits {
+			bl = append(bl, v)
+		}
+		sort.Slice(bl, func(i, j int) bool { return bl[i] < bl[j] })
+		for _, v := range bl {
+			for k := 0; k < 8; k++ {
+				fmt.Fprintf(&sb, "(assert (= (bitval %d %d) %d))\n", v, k, (v>>uint(k))&1)
+			}
+		}
 	}
 	if q.ops["runestr"] {
 		p("(declare-fun runestr (Int) Str)")
@@ -707,6 +726,10 @@ func bitPrelude() string {
 	sb.WriteString("(assert (forall ((k Int) (m Int)) (! (=> (and (<= 0 k) (< k 8) (<= 0 m) (< m 8)) (= (bitval (pow2 k) m) (ite (= k m) 1 0))) :pattern ((bitval (pow2 k) m)))))\n")
 	// definition of bitval on bytes (for ground reasoning): bitval(x,k) = (x div 2^k) mod 2
 	sb.WriteString("(assert (forall ((x Int) (k Int)) (! (=> (and (<= 0 x) (< x 256) (<= 0 k) (< k 8)) (= (bitval x k) (mod (div x (pow2 k)) 2))) :pattern ((bitval x k)))))\n")
+	// the same with literal divisors (division by the symbolic term pow2(k) is outside linear arithmetic)
+	for k := 0; k < 8; k++ {
+		fmt.Fprintf(&sb, "(assert (forall ((x Int)) (! (=> (and (<= 0 x) (< x 256)) (= (bitval x %d) (mod (div x %d) 2))) :pattern ((bitval x %d)))))\n", k, 1<<uint(k), k)
+	}
 	ops := map[string]string{
 		"band8":    "(ite (and (= (bitval x k) 1) (= (bitval y k) 1)) 1 0)",
 		"bor8":     "(ite (or (= (bitval x k) 1) (= (bitval y k) 1)) 1 0)",
@@ -719,6 +742,14 @@ func bitPrelude() string {
 		fmt.Fprintf(&sb, "(assert (forall ((x Int) (y Int) (k Int)) (! (=> (and (<= 0 x) (< x 256) (<= 0 y) (< y 256) (<= 0 k) (< k 8)) (= (bitval (%s x y) k) %s)) :pattern ((bitval (%s x y) k)))))\n", name, ops[name], name)
 	}
 	sb.WriteString("(assert (forall ((x Int)) (! (=> (and (<= 0 x) (< x 256)) (and (= (bor8 x 0) x) (= (bor8 0 x) x) (= (band8 x 0) 0) (= (bxor8 x 0) x) (= (bandnot8 x 0) x))) :pattern ((bor8 x 0)) :pattern ((bor8 0 x)) :pattern ((band8 x 0)) :pattern ((bxor8 x 0)) :pattern ((bandnot8 x 0)))))\n")
+	// mask containment: x&y == y exactly when every bit of y is set in x (the form requirement masks are tested in)
+	{
+		var conj []string
+		for k := 0; k < 8; k++ {
+			conj = append(conj, fmt.Sprintf("(=> (= (bitval y %d) 1) (= (bitval x %d) 1))", k, k))
+		}
+		sb.WriteString("(assert (forall ((x Int) (y Int)) (! (=> (and (<= 0 x) (< x 256) (<= 0 y) (< y 256)) (= (= (band8 x y) y) (and " + strings.Join(conj, " ") + "))) :pattern ((band8 x y)))))\n")
+	}
 	// byte extensionality: two bytes with the same bits are equal (behind the marker beq8)
 	sb.WriteString("(declare-fun beq8 (Int Int) Bool)\n")
 	sb.WriteString("(assert (forall ((x Int) (y Int)) (! (=> (and (<= 0 x) (< x 256) (<= 0 y) (< y 256) (= (bitval x 0) (bitval y 0)) (= (bitval x 1) (bitval y 1)) (= (bitval x 2) (bitval y 2)) (= (bitval x 3) (bitval y 3)) (= (bitval x 4) (bitval y 4)) (= (bitval x 5) (bitval y 5)) (= (bitval x 6) (bitval y 6)) (= (bitval x 7) (bitval y 7))) (= x y)) :pattern ((beq8 x y)))))\n")
